@@ -3,6 +3,7 @@ import Iec.Model.Cli104
 import Iec.Gen.Consts104
 import Iec.Lemmas.Srv104Vr
 import Iec.Lemmas.Cli104Vr
+import Iec.Lemmas.Cli104Vs
 import Iec.Lemmas.Srv104Ns
 /-
 C03 — CS104 wire format and send/receive sequence numbering are exact.
@@ -22,7 +23,8 @@ the `% 32768`; stated over histories as `nth_iframe_ns`), `sendS_spec`, `u_frame
 pass: C05 `delivery` (same code path); on the wire over every history of the whole server: `ns_counts_up_on_the_wire` (`Lemmas/Srv104Ns.lean`); over message histories: `nr_is_accepted_count` / `vr_is_start_plus_accepted`
 (`Lemmas/Srv104Vr.lean`: V(R) changes only when an I-format APDU passes both sequence checks).  Client role (`Iec.Cli104`, tied by its own differential):
 `client_sendI_spec`, `client_sendS_spec`, `client_u_frames` - the same laws for cs104_connection.c; over histories
-`client_nr_is_accepted_count` (`Lemmas/Cli104Vr.lean`).
+`client_nr_is_accepted_count` (`Lemmas/Cli104Vr.lean`), `client_vs_is_sent_count`, `client_ns_counts_up_on_the_wire`
+(`Lemmas/Cli104Vs.lean`: every sequence of send calls, accepted or refused).
 -/
 namespace Iec.Props.C03
 open Iec.Srv104 Iec.KWindow
@@ -238,6 +240,31 @@ theorem client_nr_is_accepted_count (c : Cli) (ms : List (List Nat)) (h0 : c.vr 
 example : acceptedCountC ({ p := { k := 12, w := 8, t0 := 10, t1 := 15, t2 := 10, t3 := 20, asduHdr := 6 } } : Cli)
     [[0x68, 14, 0, 0, 0, 0, 1, 1, 3, 0, 1, 0, 1, 0, 0, 1], [0x68, 14, 8, 0, 0, 0, 1, 1, 3, 0, 1, 0, 1, 0, 0, 1],
      [0x68, 14, 2, 0, 0, 0, 1, 1, 3, 0, 1, 0, 1, 0, 0, 1]] = 2 := by decide
+
+/-- **client, V(S) over every sequence of send calls.** Whatever sequence of ASDUs the application hands to
+`CS104_Connection_sendASDU` since V(S) was 0 (connection opened) - accepted, or refused because the connection is not
+running or the window is full - V(S) is the number of accepted calls modulo 32768 (`Lemmas/Cli104Vs.lean`). -/
+theorem client_vs_is_sent_count (c : Cli) (as : List (List Nat)) (h0 : c.vs = 0) :
+    (sendAll c as).vs = sentCount c as % 32768 := by
+  have := vs_counts_sentC as c (by rw [h0]; decide)
+  rwa [h0, Nat.zero_add] at this
+
+/-- **client, N(S) on the wire over every sequence of send calls.** On a socket that accepts writes, from V(S) = 0, the
+calls append to the wire exactly one I-format APDU per accepted call and nothing else, and the j-th of them
+(j = 0, 1, 2, ...) carries N(S) = j mod 32768: no number is skipped or used twice, whichever calls were refused in
+between. (A write the socket refuses is not on the wire although V(S) advances: the client ignores the result of
+`writeToSocket`, and the connection is then closed by the peer's sequence check or by t1; see DESIGN 11.0.) -/
+theorem client_ns_counts_up_on_the_wire (c : Cli) (as : List (List Nat)) (h0 : c.vs = 0) (hw : CliWritable c) :
+    ∃ fr : List (List Nat), (sendAll c as).log = c.log ++ fr.map Iec.Cli104.Obs.tx ∧ fr.length = sentCount c as ∧
+      ∀ j, j < fr.length → frameNS (fr.getD j []) = j % 32768 ∧ (fr.getD j []).getD 2 0 % 2 = 0 := by
+  obtain ⟨fr, h1, h2, h3⟩ := ns_on_the_wireC as c (by rw [h0]; decide) hw
+  refine ⟨fr, h1, h2, fun j hj => ?_⟩
+  have := h3 j hj
+  rwa [h0, Nat.zero_add] at this
+
+/-- non-vacuity: k = 2, three calls on a running, writable connection: two accepted, the third refused (window full) -/
+example : sentCount ({ p := { k := 2, w := 8, t0 := 10, t1 := 15, t2 := 10, t3 := 20, asduHdr := 6 }, phase := 3, running := true } : Cli) [[100, 1, 3, 0, 1, 0, 1, 0, 0, 1], [100, 1, 3, 0, 1, 0, 2, 0, 0, 1], [100, 1, 3, 0, 1, 0, 3, 0, 0, 1]] = 2 := by
+  decide
 
 end Client
 
